@@ -18,7 +18,9 @@ from ..dataflow import Flow, chain, call_name
 from ..cfg import cfg_of
 from ..poly import Poly, le, lt, eq
 from ..util import (calls_in, decorator_names, qual, has_fact, parse_expr,
-                    class_methods, returns_of, raise_name, inlinable)
+                    class_methods, returns_of, raise_name, inlinable,
+                    formals)
+from ..terms import Terms, reify, plain
 
 MOD = "rig.machine_control.machine_controller"
 CLS = MOD + ":SlicedMemoryIO"
@@ -568,6 +570,53 @@ def r6_truncation_warning(program, rep):
     rep.floor("C13-R6", 6)
 
 
+def r0_allocated_view(program, rep):
+    """sdram_alloc_as_filelike wraps exactly the block it allocated: the
+    view runs from the address returned by sdram_alloc(size, ...) to that
+    address + size (value terms / polynomials)."""
+    fn = program.get(MOD + ":MachineController.sdram_alloc_as_filelike")
+    inst = qual(fn)
+    T = Terms(fn)
+    fl = Flow(fn)
+    ps = formals(fn)
+    rets = [r for r in returns_of(fn) if r.value is not None]
+    mk = [c for c in calls_in(fn, "MemoryIO")]
+    al = [c for c in calls_in(fn, "sdram_alloc")]
+    if len(mk) != 1 or len(al) != 1 or len(mk[0].args) < 5:
+        raise AnalysisError("sdram_alloc_as_filelike: one sdram_alloc and "
+                            "one MemoryIO(...) with positional bounds "
+                            "expected")
+    n = T.cfg.node_containing(mk[0])
+    START = T.term(al[0], T.cfg.node_containing(al[0]))
+    a = [T.term(x, n) for x in mk[0].args]
+    size = T.term(al[0].args[0], T.cfg.node_containing(al[0])) \
+        if al[0].args else None
+    ok_s = a[3] == START and size == ("param", ps[1])
+
+    def poly(t):
+        e_ = reify(plain(t))
+        for n_ in ast.walk(e_):
+            for c_ in ast.iter_child_nodes(n_):
+                c_._parent = n_
+        ast.fix_missing_locations(e_)
+        return fl.sym(e_, fl.cfg.entry)
+    try:
+        ok_e = ok_s and poly(a[4]) - poly(a[3]) == poly(("param", ps[1]))
+    except AnalysisError:
+        raise AnalysisError("sdram_alloc_as_filelike: the end of the view "
+                            "is not an arithmetic expression of the start "
+                            "and the size")
+    rep.check(ok_s, "C13-R0", inst, "the view starts at the address "
+              "sdram_alloc(size, ...) returned", construct="allocated view "
+              "start", node=mk[0])
+    rep.check(ok_e, "C13-R0", inst, "the view ends at start + size: it is "
+              "exactly the block allocated", construct="allocated view end",
+              node=mk[0],
+              fail="the view handed out for an allocation of `size` bytes "
+                   "does not end at start + size: reads and writes through "
+                   "it reach beyond (or stop short of) the allocated block")
+
+
 def check(program, rep):
     program.module(MOD)
     inline = _inline_props(program)
@@ -592,6 +641,7 @@ def check(program, rep):
         rep.guard("C13-R1", r1_confinement, program, rep, inline)
         rep.guard("C13-R2", r2_slices, program, rep, inline)
         rep.guard("C13-R3", r3_seek, program, rep, inline)
+    rep.guard("C13-R0", r0_allocated_view, program, rep)
     rep.guard("C13-R5", r5_guards, program, rep)
     rep.guard("C13-R6", r6_truncation_warning, program, rep)
     rep.assume("distinct local names are not aliases of one mutable object")
